@@ -107,9 +107,11 @@ def requests(events):
     """events of one compile -> list of (kind, drv line, expected answer, replay info)"""
     out = []
     last_split = None
+    cur_split = None
     for ev in events:
         if ev["event"] == "split":
             last_split = None
+            cur_split = (ev, None)
             try:
                 inst = ev["instances"]
                 d = ";".join(comp(c) for c in ev["computes"])
@@ -135,6 +137,27 @@ def requests(events):
             out.append(("split", line, exp, ev))
             if pre is not None:
                 last_split = (missing, at, inst, d, p, ev)
+        elif ev["event"] == "extracted" and cur_split is not None:
+            sev, aev = cur_split
+            cur_split = None
+            try:
+                inst = dict(sev["instances"])
+                known = set(inst)
+                if aev is not None:
+                    inst.update(aev["instances"])
+                inst.update(ev["instances"])
+                nxt = 0
+                for cand in ([aev] if aev is not None else []) + [ev]:
+                    first = cand["atomic"][0] if cand["atomic"] else None
+                    if isinstance(first, dict) and "From" in first and str(first["From"]) not in known:
+                        new = cand["instances"][str(first["From"])]["cids"]
+                        nxt = new[0] if new else 0
+                        break
+                d = ";".join(comp(c) for c in sev["computes"])
+                line = f"aextract\t{d}\t{pipe(sev['pipeline'], inst)}\t{nxt}\t{cids(sev['output'])}"
+                out.append(("extract", line, pipe(ev["atomic"], inst), {"split": sev, "extracted": ev}))
+            except (Shape, KeyError, TypeError, IndexError) as e:
+                out.append(("shape", None, str(e), ev))
         elif ev["event"] == "reorder":
             try:
                 class _NoInst(dict):
@@ -143,7 +166,12 @@ def requests(events):
                 out.append(("reorder", "areorder\t" + pipe(ev["input"], _NoInst()), pipe(ev["output"], _NoInst()), ev))
             except (Shape, KeyError, TypeError) as e:
                 out.append(("shape", None, str(e), ev))
+        elif ev["event"] == "anchored" and last_split is None:
+            if cur_split is not None:
+                cur_split = (cur_split[0], ev)
         elif ev["event"] == "anchored" and last_split is not None:
+            if cur_split is not None:
+                cur_split = (cur_split[0], ev)
             missing, at, inst0, d, p, sev = last_split
             last_split = None
             try:
@@ -204,6 +232,24 @@ def run_suite(ctx, progs, label, targets=("sql.sqlite",)):
             if a != exp:
                 bad += 1
                 ctx.disagreement("anchor-redirect", f"anchor_split differs from Model.Anchor.anchorSplit: real `{exp[:300]}` vs model `{a[:300]}`",
+                                 {"prql": p, "target": t, "request": line, "model": a, "real": exp})
+        elif kind == "extract":
+            ctx.case(("extract", line))
+            f = a.split(" atomic=", 1)
+            got = f[1] if len(f) == 2 else a
+            limiting = "stashed=2" in a or ("stashed=1" in a and ev["split"]["preceding"] is None)
+            ctx.count(f"{label}:extract_atomic" + (":limiting-select" if limiting else ""))
+            dsc = a.split(" dsc=", 1)[1].split(" ", 1)[0] if " dsc=" in a else None
+            if ev["split"].get("select_columns") is not None:
+                if ev["split"]["select_columns"] != ev["split"]["output"]:
+                    ctx.count(f"{label}:extract_atomic:positional-mapping-active")
+                if dsc != cids(ev["split"]["select_columns"]):
+                    bad += 1
+                    ctx.disagreement("determine-select-columns", f"determine_select_columns differs from Model.Anchor.determineSelect: real `{cids(ev['split']['select_columns'])}` vs model `{dsc}`",
+                                     {"prql": p, "target": t, "request": line, "model": a})
+            if got != exp or "select_is_output=true" not in a:
+                bad += 1
+                ctx.disagreement("anchor-extract", f"extract_atomic differs from Model.Anchor.extractAtomic (or its Select is not the requested output): real `{exp[:300]}` vs model `{a[:400]}`",
                                  {"prql": p, "target": t, "request": line, "model": a, "real": exp})
         elif kind == "reorder":
             ctx.case(("reorder", line))
